@@ -1,5 +1,6 @@
 import Driver.Util
 import DoitModel.Model.Opt
+import DoitModel.Model.OptCfg
 open Lean DoitModel.Opt
 namespace Driver.Opt
 /-! requests with `"model":"opt"`:
@@ -133,7 +134,103 @@ def defaultsJson (st : PState) : Json := mkArr (st.map fun o => valJson o.defaul
 def exceptAll (spec : List Opt) (f : Opt → Except Err Val) : Option (List (Str × Val)) :=
   spec.mapM fun o => match f o with | .ok v => some (o.name, v) | .error _ => none
 
+/-! wave 5 ops (no `spec` field):
+   * "winner"   -> `opt`: OPT, `occ`: [[inverse?,text]], `envv`: str|null, `dodo`: [[k,VAL]],
+                   `gApi`,`gToml`,`gCfg`,`sApi`,`sToml`,`sCfg`: [[k,CFG]]:
+                   {"winner": layer name, "value": {"ok":VAL}|{"err":kind}, "merged": {"ok":VAL}|{"err":kind}|null}
+                   ("merged": str2typeCfg of the key looked up in `sixLayers`, what overwrite_defaults converts)
+   * "plugpick" -> `cat`: reporter|backend|loader, `where`: cmdline|config|dodo, `core`: [name],
+                   `layers`: [[[name,location]]] (extra_config, pyproject.toml, doit.cfg), `name`, optional `mods`:
+                   {"pick": cls|error|traceback3|escapes, "cls": ["core",n]|["plugin",loc]|null, "accepts": bool,
+                    "section": [[name,loc]]}
+   * "cfgtext"  -> `opt`, `text`: {"cfg": RES, "cmd": RES, "env": RES}   RES = {"ok":VAL}|{"err":kind} -/
+
+def layerName : Layer → String
+  | .cmdline => "cmdline" | .environ => "environ" | .dodoCfg => "dodoCfg"
+  | .secCfg => "secCfg" | .secToml => "secToml" | .secApi => "secApi"
+  | .globCfg => "globCfg" | .globToml => "globToml" | .globApi => "globApi" | .declared => "declared"
+
+def valRes : Except Err Val → Json
+  | .ok v => Json.mkObj [("ok", valJson v)]
+  | .error e => Json.mkObj [("err", Json.str (errName e))]
+
+def pairsOf (j : Json) (field : String) : List (Str × Str) :=
+  (jarr j field).map fun kv => match asArr kv with
+    | [k, v] => (s2l (asStr k), s2l (asStr v))
+    | _ => ([], [])
+
+def handleCfg (j : Json) : Option Json :=
+  match jstr j "op" with
+  | "winner" =>
+    some <| match optOf (jobj j "opt"), iniOf j "gApi", iniOf j "gToml", iniOf j "gCfg", iniOf j "sApi",
+          iniOf j "sToml", iniOf j "sCfg", dodoOf j with
+    | some o, some gA, some gT, some gC, some sA, some sT, some sC, some dodo =>
+      let occ : List (Bool × Str) := (jarr j "occ").map fun x => match asArr x with
+        | [i, t] => ((i.getBool?).toOption.getD false, s2l (asStr t))
+        | _ => (false, [])
+      let envv : Option Str := match jobj j "envv" with | .str s => some (s2l s) | _ => none
+      let k := keyIn o.name occ envv dodo gA gT gC sA sT sC
+      Json.mkObj [("winner", Json.str (layerName (winner k))), ("value", valRes (layerValue o k (winner k))),
+                  ("merged", match DoitModel.alookup o.name (sixLayers gA gT gC sA sT sC) with
+                             | some c => valRes (str2typeCfg o c) | none => Json.null)]
+    | _, _, _, _, _, _, _, _ => Driver.err "bad winner request"
+  | "plugpick" =>
+    let cat := match jstr j "cat" with | "reporter" => Category.reporter | "backend" => .backend | _ => .loader
+    let w := match jstr j "where" with | "cmdline" => Where.cmdline | "config" => .config | _ => .dodo
+    let core := (jstrs j "core").map s2l
+    let layers : List (List (Str × Str)) := (jarr j "layers").map fun l =>
+      (asArr l).map fun kv => match asArr kv with
+        | [k, v] => (s2l (asStr k), s2l (asStr v))
+        | _ => ([], [])
+    let sect := addPlugins (pluginSection layers) []
+    let name := s2l (jstr j "name")
+    -- "mods": [[module,[attr]]] the importable modules: loading is part of the answer (`pickLoaded`)
+    let mods : List (Str × List Str) := (jarr j "mods").map fun m => match asArr m with
+      | [k, v] => (s2l (asStr k), (asArr v).map fun a => s2l (asStr a))
+      | _ => ([], [])
+    let pk := if jhas j "mods" then pickLoaded cat w core sect mods name else pick cat w (nameTable core sect) name
+    some <| Json.mkObj [
+      ("pick", Json.str (match pk with | .cls _ => "cls" | .errorMsg => "error" | .traceback3 => "traceback3" | .escapes => "escapes")),
+      ("cls", match pk with
+              | .cls (.core n) => mkArr [Json.str "core", Json.str (l2s n)]
+              | .cls (.plugin l) => mkArr [Json.str "plugin", Json.str (l2s l)]
+              | _ => Json.null),
+      ("accepts", Json.bool (acceptsName core sect name)),
+      ("all_load", Json.bool (allLoad mods sect)),
+      ("section", mkArr (sect.map fun kv => mkArr [Json.str (l2s kv.1), Json.str (l2s kv.2)]))]
+  | "plugcmd" =>
+    -- `core`: [name], `layers`, `mods` as for plugpick, `args`: the words -> {"cmd","rest","pick","cls"}
+    let core := (jstrs j "core").map s2l
+    let layers : List (List (Str × Str)) := (jarr j "layers").map fun l =>
+      (asArr l).map fun kv => match asArr kv with
+        | [k, v] => (s2l (asStr k), s2l (asStr v))
+        | _ => ([], [])
+    let sect := addPlugins (pluginSection layers) []
+    let mods : List (Str × List Str) := (jarr j "mods").map fun m => match asArr m with
+      | [k, v] => (s2l (asStr k), (asArr v).map fun a => s2l (asStr a))
+      | _ => ([], [])
+    let args := (jstrs j "args").map s2l
+    let sc := subCommand (nameTable core sect) args
+    let pk := commandPick core sect mods args
+    some <| Json.mkObj [
+      ("cmd", Json.str (l2s sc.1)), ("rest", mkArr (sc.2.map fun x => Json.str (l2s x))),
+      ("pick", Json.str (match pk with | .cls _ => "cls" | .errorMsg => "error" | .traceback3 => "traceback3" | .escapes => "escapes")),
+      ("cls", match pk with
+              | .cls (.core n) => mkArr [Json.str "core", Json.str (l2s n)]
+              | .cls (.plugin l) => mkArr [Json.str "plugin", Json.str (l2s l)]
+              | _ => Json.null)]
+  | "cfgtext" =>
+    some <| match optOf (jobj j "opt") with
+    | some o =>
+      let t := s2l (jstr j "text")
+      Json.mkObj [("cfg", valRes (cfgText o t)), ("cmd", valRes (cmdText o t)), ("env", valRes (str2type o t))]
+    | none => Driver.err "bad opt"
+  | _ => none
+
 def handle (j : Json) : Json :=
+  match handleCfg j with
+  | some r => r
+  | none =>
   match (jarr j "spec").mapM optOf, layeredOf j "ini", layeredOf j "glob", dodoOf j with
   | some spec, some sec, some glob, some dodo =>
     let ini := mergeCfg glob sec
